@@ -194,4 +194,46 @@ def allocApp (l : NL) (pos : Nat) (s : ASlot) : Option NL :=
 /-- a slot names each core and each GPU at most once -/
 def slotWF (s : ASlot) : Bool := decide ((s.cores.map (·.1)).Nodup) && decide ((s.gpus.map (·.1)).Nodup)
 
+/-! ### several application threads on one node
+
+`Node.find_slot` searches what is free and books it.  With both inside one section of the node's lock
+(`atomic = true`) a call is one step; with the booking outside (`atomic = false`) a call is two steps - the search,
+then the booking of what the search found (`allocate_slot(_check=False)` does not look again) - and other threads'
+steps may come in between. -/
+
+structure CState where
+  node : ANode
+  pend : List (Nat × ASlot)              -- thread k has found a slot and not booked it yet
+  got  : List (Nat × Option ASlot)       -- answers, in the order they were given
+deriving Repr
+
+inductive CStep where
+  | call (k : Nat) (rr : RR)             -- thread k enters `find_slot`
+  | book (k : Nat)                       -- thread k books what its search found (non-atomic code only)
+deriving Repr
+
+def cstep (atomic : Bool) (s : CState) : CStep → CState
+  | .call k rr =>
+    match findSlot s.node rr with
+    | none => { s with got := s.got ++ [(k, none)] }
+    | some (sl, n') =>
+      if atomic then { s with node := n', got := s.got ++ [(k, some sl)] }
+      else { s with pend := s.pend ++ [(k, sl)] }
+  | .book k =>
+    match s.pend.find? (fun e => e.1 = k) with
+    | none         => s
+    | some (_, sl) => { node := allocate s.node sl, pend := s.pend.filter (fun e => e.1 ≠ k),
+                        got := s.got ++ [(k, some sl)] }
+
+def crun (atomic : Bool) (s : CState) (steps : List CStep) : CState := steps.foldl (cstep atomic) s
+
+/-- the same calls one after the other, in the order the schedule lets them in -/
+def seqCalls (n : ANode) : List CStep → ANode × List (Nat × Option ASlot)
+  | []                  => (n, [])
+  | .book _ :: rest     => seqCalls n rest
+  | .call k rr :: rest  =>
+    match findSlot n rr with
+    | none          => ((seqCalls n rest).1, (k, none) :: (seqCalls n rest).2)
+    | some (sl, n') => ((seqCalls n' rest).1, (k, some sl) :: (seqCalls n' rest).2)
+
 end RPVerif.NodeList
